@@ -68,7 +68,9 @@ def checkIv (consts : List (String × String)) (unit : TUnit) (iv : PIv) : Excep
 
 /-- All intervals of an expression, in the order the visitor meets them (children first). -/
 def PE.check (consts : List (String × String)) (unit : TUnit) : PE → Except ParseErr Unit
-  | .id _ => .ok ()
+  -- `x.f` reads the field `f` of an object-typed variable `x`; only float / int variables are modelled, for which
+  -- the visitor raises RTAMTException (undeclared head of unknown type, or attribute error on a number)
+  | .id s => if s.contains '.' then .error (.semantic "field access on a variable that is not an object") else .ok ()
   | .lit s => match litToRat s with | some _ => .ok () | none => .error (.semantic "bad literal")
   | .pre _ iv e => do
       PE.check consts unit e
@@ -98,7 +100,10 @@ def parseAndCheck (apiConsts : List (String × String)) (unit : TUnit) (text : S
     match d with
     | .var _ ty _ => if ty = "float" ∨ ty = "int" ∨ ty = "complex" then pure () else throw (.semantic "type not imported")
     | _ => pure ()
-  for (_, e) in spec.asserts do
+  for (nm, e) in spec.asserts do
+    match nm with
+    | some n => if n.contains '.' then throw (.semantic "field access on a variable that is not an object") else pure ()
+    | none => pure ()
     PE.check consts unit e
   pure spec
 
